@@ -24,7 +24,9 @@ RULE = ("datasets generated from the COMODO / SGRID tables: 1-3 axes, all positi
         "an inner/outer position or names that contain one another or an SGRID topology; distinct by case")
 
 NAMES = ["x", "xc", "xg", "x_c", "xx", "lon", "lon_g", "i", "ig", "i_g", "nx", "nxp", "y", "yc", "yg", "lat", "j", "jg",
-         "z", "zc", "zl", "k", "kp1", "depth", "depthw", "t", "e", "r", "xi", "eta", "xi_psi", "eta_psi", "s_rho", "s_w"]
+         "z", "zc", "zl", "k", "kp1", "depth", "depthw", "t", "e", "r", "xi", "eta", "xi_psi", "eta_psi", "s_rho", "s_w",
+         # dimension names are arbitrary labels, not identifiers
+         "xi-rho", "x-node", "lon.c", "y.g", "eta-psi"]
 PAD = {"left": "high", "right": "low", "inner": "both", "outer": "none"}
 
 
@@ -129,12 +131,18 @@ def eval_case(case, drv):
             except Exception as e:  # noqa: BLE001  -- both datasets are well formed: a refusal is a verdict
                 ok, det = False, {"refused": exc_kind(e) + ": " + str(e)[:150]}
             return {"corr_ok": True, "prop_ok": ok, "branch": "hierarchy", "detail": det}
+        # user-supplied coords together with parsed ones are refused - whatever the user's axes are called
+        import random
+        which = random.Random(case["seed"]).choice([{"X": {"center": "xc", "outer": "xo"}}, {"T": {"center": "xc"}},
+                                                     {"lon": {"center": "xc", "outer": "xo"}}, {"Z": {"center": "xo"}}])
         try:
-            xgcm.Grid(ds, coords={"X": {"center": "xc", "outer": "xo"}})
-            ok = False
+            g = xgcm.Grid(ds, coords=which)
+            ok, how = False, "answered with axes " + str(list(g.axes))
         except ValueError:
-            ok = True
-        return {"corr_ok": True, "prop_ok": ok, "branch": "conflict", "detail": None if ok else {"impl": "merged silently"}}
+            ok, how = True, ""
+        except Exception as e:  # noqa: BLE001
+            ok, how = False, exc_kind(e) + ": " + str(e)[:100]
+        return {"corr_ok": True, "prop_ok": ok, "branch": "conflict", "detail": None if ok else {"coords": which, "impl": how}}
     axes = case["axes"]
     want = {ax["name"]: dict(ax["coords"]) for ax in axes}
     detail = {}
